@@ -16,7 +16,6 @@ import (
 	_ "crypto/sha512"
 	"fmt"
 	"hash/fnv"
-	"os"
 	"runtime"
 	"sort"
 	"sync"
@@ -501,7 +500,7 @@ func report(r *evidence.Run, phase string, st *stats) {
 	for k, n := range st.violN {
 		r.Add("violating_cases_"+k, int64(n))
 	}
-	if len(st.samples) > 0 {
+	if len(st.samples) > 0 && phase != "digest_grid" {
 		smp := map[string]any{"phase": phase}
 		for k, v := range st.samples {
 			smp[k] = v
@@ -575,4 +574,3 @@ func main() {
 	r.Finish(r.N(3000, 5000))
 }
 
-var _ = os.Getenv
